@@ -1,12 +1,13 @@
 #!/bin/bash
+REPO=${REPO:-/repo}; VERIF=${VERIF:-/verif}
 # usage: tools/seedrun.sh <ID> <patch.diff> [check args]  -- apply a seeded change to /repo, run the check, undo the change
 set -u
 ID=$1; PATCH=$2; shift 2
-cd /repo || exit 9
+cd $REPO || exit 9
 if ! git diff --quiet; then echo "repo dirty, abort"; exit 9; fi
 git apply "$PATCH" || { echo "patch does not apply"; exit 8; }
-cd /verif && ./check "$ID" "$@" >/tmp/seedrun_last.out 2>/tmp/seedrun_last.err
+cd $VERIF && ./check "$ID" "$@" >/tmp/seedrun_last.$$.out 2>/tmp/seedrun_last.$$.err
 rc=$?
-grep -E "^(VIOLATION|OK|KNOWN|INCONCLUSIVE|BUILD)" /tmp/seedrun_last.out
-git -C /repo checkout -- .
+grep -E "^(VIOLATION|OK|KNOWN|INCONCLUSIVE|BUILD)" /tmp/seedrun_last.$$.out; rm -f /tmp/seedrun_last.$$.out /tmp/seedrun_last.$$.err
+git -C $REPO checkout -- .
 echo "exit=$rc"
